@@ -26,6 +26,11 @@ func init() {
 			{"C14.R8", "q", "nil discipline of hint readers", c14r8},
 			{"C13.R6b", "q", "shared: merge flushes its last group on every path", c13r6b},
 			{"C14.R9", "q", "sparse-index buffer fills every slot", c14r9},
+			{"C14.R10", "q", "hint lookups walk chunks and splits newest-first; a buffer keeps the last write of a key", c14r10},
+			{"C14.R11", "q", "an item is never dropped when a split is full; newest chunk id tracked", c14r11},
+			{"C14.R12", "q", "index file names: writers and the start-up parser agree on the columns", c14r12},
+			{"C14.R13", "q", "start-up acceptance of hint files (sequence, coverage)", c14r13},
+			{"C14.R14", "q", "split dump discipline (needDump, file before buffer release, id bookkeeping)", c14r14},
 		},
 	})
 }
@@ -314,15 +319,17 @@ func c14r4(c *Ctx) {
 		ok := false
 		ast.Inspect(f.Decl.Body, func(x ast.Node) bool {
 			if be, ok2 := x.(*ast.BinaryExpr); ok2 && (be.Op == token.ADD || be.Op == token.OR) {
-				if sh, ok3 := prog.Unparen(be.X).(*ast.BinaryExpr); ok3 && sh.Op == token.SHL && prog.MentionsField(info, sh.X, "store.Position.ChunkID") {
-					if k, isC := prog.ConstInt(info, sh.Y); isC && k >= 32 && prog.MentionsField(info, be.Y, "store.Position.Offset") {
+				if sh, ok3 := prog.Unparen(be.X).(*ast.BinaryExpr); ok3 && sh.Op == token.SHL {
+					ck, w1 := wideConv(info, sh.X)
+					off, w2 := wideConv(info, be.Y)
+					if k, isC := prog.ConstInt(info, sh.Y); isC && k >= 32 && w1 && w2 && prog.IsField(info, "store.Position.ChunkID")(ck) && prog.IsField(info, "store.Position.Offset")(off) {
 						ok = true
 					}
 				}
 			}
 			return true
 		})
-		c.check(ok, R, f.Key+": orders by (ChunkID, Offset)", f.Pos(), "ChunkID<<32 + Offset", "Position.CmpKey no longer ranks chunk id above offset")
+		c.check(ok, R, f.Key+": orders by (ChunkID, Offset)", f.Pos(), "ChunkID<<32 + Offset, both unmasked", "Position.CmpKey no longer ranks the whole chunk id above the whole offset (a masked or truncated chunk id makes later files compare as earlier ones: merge and the collision table keep stale positions)")
 	}
 	if f := c.fn(R, "store.hintFileIndex.get"); f != nil {
 		info := f.Info()
@@ -671,7 +678,25 @@ func c14r9(c *Ctx) {
 		return
 	}
 	storeFirst := store.Pos() < roll.Pos()
-	ok := (storeFirst && k == 1) || (!storeFirst && k == 0)
+	// an unconditional advance of currCol between the store and the test means
+	// the test sees the number of filled slots, not the index just written
+	incBefore := false
+	for _, st := range f.Decl.Body.List {
+		if st.Pos() >= roll.Pos() {
+			break
+		}
+		switch s := st.(type) {
+		case *ast.IncDecStmt:
+			if s.Tok == token.INC && prog.IsField(info, "store.hintFileIndexBuffer.currCol")(prog.Unparen(s.X)) {
+				incBefore = true
+			}
+		case *ast.AssignStmt:
+			if s.Tok == token.ADD_ASSIGN && len(s.Lhs) == 1 && prog.IsField(info, "store.hintFileIndexBuffer.currCol")(prog.Unparen(s.Lhs[0])) {
+				incBefore = true
+			}
+		}
+	}
+	ok := (storeFirst && !incBefore && k == 1) || (storeFirst && incBefore && k == 0) || (!storeFirst && k == 0)
 	c.check(ok, R, f.Key+": roll-over test matches the store/advance order", c.pos(roll), "store then roll at ROW_SIZE-1 (or roll at ROW_SIZE then store)",
 		"the row roll-over happens "+map[bool]string{true: "after", false: "before"}[storeFirst]+" the slot store but tests currCol against ROW_SIZE-"+itoa(int(k))+": the last slot of every full row is never written (or one is overwritten), so the persisted sparse index has a zero entry in the middle and the binary search starts the scan at offset 0 or past the item")
 }
